@@ -48,7 +48,7 @@ void harness(void) {
 	CHECK(bits == 5 * NSYM, "C17.H2 every symbol adds exactly five bits");
 	for (unsigned i = 0; i < NOUT; i++)
 		CHECK(buf[i] == c17_stream_byte(val, i), "C17.H2 packed byte i = bits 8i..8i+7 of the symbol stream");
-	if (val[0] == 31 && val[NSYM - 1] == 1) WITNESS_POINT("symbols packed");
+	if ((val[0] & 1) == 1 && (val[NSYM - 1] & 16) == 16) WITNESS_POINT("symbols packed");
 }
 #else
 #ifndef NDATA
